@@ -42,3 +42,15 @@ Proof.
   intros o ic sw y r d Hs Hl Hopt Hsc.
   exact (C01_flat.scope_sound o ic rust_ord sw y r d rust_ord_perm Hs Hl Hopt Hsc).
 Qed.
+
+(* ... and for all sixteen switch sets *)
+From TauProofs Require C01_matrix.
+Lemma crate_order_scope_all_sound : forall o ic sw y r (d : doc),
+  C01.H_strip o ->
+  load_rule o ic y = Ok r -> r_optimised r = false ->
+  Scope.c01_scope_all o rust_ord sw (r_det r) = true ->
+  exists r', optimise o rust_ord sw r = Ok r' /\ matches o r' d = matches o r d.
+Proof.
+  intros o ic sw y r d Hs Hl Hopt Hsc.
+  exact (C01_matrix.scope_all_sound o ic rust_ord sw y r d rust_ord_perm Hs Hl Hopt Hsc).
+Qed.
